@@ -12,6 +12,8 @@ ALL_CFGS = ["tc", "tc_safe", "sm", "sm_safe"]
 
 def base_corpus(tier, seed):
     defs = corpus.shape_corpus()
+    if tier == "quick":      # byte-table boundary shapes: the quick tier keeps the boundaries 00, 7F, 80 and FF
+        defs = [d for d in defs if not d["id"].startswith("btab_") or d["id"][-2:] in ("00", "7f", "80", "ff")]
     defs += corpus.random_corpus(seed, 40 if tier == "quick" else 800)
     defs += corpus.class_shape_corpus(tier, seed)
     return defs
@@ -112,9 +114,23 @@ def check_C01(tier, seed, rest):
     import front
     ra = front.regex_agree_run(tier, seed)
     v += ra["findings"]
-    cov = a_coverage(r, {"regex_agree": {k: ra[k] for k in ("patterns", "accepted", "words", "states")}, "regex_agree_samples": ra["samples"][:2], "graph_passes_transcribed_and_compared": st.get("compile"),
+    # EdgeImpl.tla: how byte classes become edge tests (comparisons with holes, tables, can_error, merge)
+    import edge
+    ei = edge.edge_run(tier, seed)
+    drift += ei["drift"][:6]
+    if ei["n_wrong"]:
+        # a helper is wrong about some class: put those classes on the edges of real lexers and let Attempt.tla + replay decide
+        cd = edge.confirm_defs(ei["wrong"])
+        cr = engine_a(tier, seed, "edgeconfirm", cd)
+        cv = [as_violation(f) for f in cr["findings"] if is_munch(f) or is_errspan(f)]
+        v += cv
+        if not cv:
+            drift += ["EdgeImpl.tla: %s (not observable on the lexers built for that class)" % w["why"] for w in ei["wrong"][:6]]
+    cov = a_coverage(r, {"edge_tests_EdgeImpl": {k: ei[k] for k in ("classes", "states_cases", "agree", "n_wrong")}, "edge_tests_samples": ei["samples"], "regex_agree": {k: ra[k] for k in ("patterns", "accepted", "words", "states")}, "regex_agree_samples": ra["samples"][:2], "graph_passes_transcribed_and_compared": st.get("compile"),
                          "graph_pass_snapshots_checked": st["graphs"], "graph_pass_states": st["tlc"]["distinct"], "graph_pass_violations": st["n_viol"],
                          "graphlex_model_of_generated_code": b.get("graphlex"), "sequence_level_behaviours_replayed": b["behaviours"]})
+    cov["states"] += ei["tlc"]["distinct"]
+    cov["transitions"] += ei["tlc"]["states"]
     cov["states"] += st["tlc"]["distinct"] + (b["graphlex"]["distinct"] if b.get("graphlex") else 0)
     cov["transitions"] += st["tlc"]["states"] + (b["graphlex"]["states"] if b.get("graphlex") else 0)
     finish("C01", tier, seed, "model_checking", cov, v, t0, ASSUME_A, drift)
